@@ -19,7 +19,7 @@ for d in sorted(os.listdir(root)):
             print(d, "PATCH-FAILED"); continue
         res = []
         for sd in seeds:
-            env = dict(os.environ, VERIF_REPO_SRC=os.path.join(tmp, "src"), VERIF_SEED=str(sd))
+            env = dict(os.environ, VERIF_REPO_SRC=os.path.join(tmp, "src"), VERIF_SEED=str(sd), VERIF_REPLAY_DIR=os.path.join(tmp, "replays"))
             c = subprocess.run(["/venv/bin/python", os.path.join(HERE, "check.py"), prop, "--no-evidence"], capture_output=True, text=True, env=env, cwd=HERE, timeout=1800)
             res.append(c.returncode)
         print(d, prop, res, "OK" if all(x == 1 for x in res) else "WEAK", flush=True)
